@@ -8,12 +8,14 @@ Local Open Scope list_scope.
 Definition spec_rename_ref_leaf (pkg obj to : string) (t : ty) : ty :=
   match t with
   | TRef a p n => if objref_matches_ref (pkg, obj) p n then TRef a p to else t
+  | TConstRef a p n v => if objref_matches_ref (pkg, obj) p n then TConstRef a p to v else t
   | _ => t
   end.
 Definition spec_rename_object (pkg obj to : string) (ss : schemas) : schemas :=
-  map (visit_schema_t (tmap (spec_rename_ref_leaf pkg obj to))
-         (fun o => let o1 := if objref_matches (pkg, obj) o then rename_o o to else o in
-                   set_otype o1 (tmap (spec_rename_ref_leaf pkg obj to) (o_type o1)))) ss.
+  map (fun s => rename_entry pkg obj to
+         (visit_schema_t (tmap (spec_rename_ref_leaf pkg obj to))
+            (fun o => let o1 := if objref_matches (pkg, obj) o then rename_o o to else o in
+                      set_otype o1 (tmap (spec_rename_ref_leaf pkg obj to) (o_type o1))) s)) ss.
 
 (* replace_reference: only the target of the reference changes *)
 Definition spec_replace_ref_leaf (fpkg fobj tpkg tobj : string) (t : ty) : ty :=
